@@ -4,6 +4,7 @@ package gvc
 // ledger, replay refutations on the real code, write evidence, set the exit code (DESIGN section 3).
 
 import (
+	"regexp"
 	"encoding/json"
 	"flag"
 	"fmt"
@@ -310,6 +311,7 @@ func runCheck(id, tier string, seed int, propose, verbose bool) int {
 	}
 
 	inLedger := map[string]bool{}
+	var retired []string
 	discharged := 0
 	backends := map[string]int{}
 	for _, le := range ledger {
@@ -331,6 +333,12 @@ func runCheck(id, tier string, seed int, propose, verbose bool) int {
 		if !ok {
 			if w, k := isKnown(le.Name); k {
 				known = append(known, fmt.Sprintf("KNOWN-FINDING: property=%s %s: %s", id, le.Name, w))
+				continue
+			}
+			if why := retiredLoopObligation(P, le.Name); why != "" {
+				// an auxiliary lemma about a loop that no longer exists: nothing to prove, and what it
+				// served (the function's postconditions and guards) is still proved or reported
+				retired = append(retired, le.Name+": "+why)
 				continue
 			}
 			rec := &ReplayRecord{Verdict: "no-model", SolverOutput: "obligation was not generated: its contract no longer binds (function or loop missing, or the executor could not reach it)"}
@@ -445,6 +453,7 @@ func runCheck(id, tier string, seed int, propose, verbose bool) int {
 		"load_s":                   loadSecs,
 		"generated_obligations":    len(all),
 		"undecided_new":            undecidedNew,
+		"retired_loop_lemmas":      retired,
 		"unsupported":              unsupported,
 		"known_findings":           known,
 		"bounded":                  boundedNotes,
@@ -530,6 +539,9 @@ func runCheck(id, tier string, seed int, propose, verbose bool) int {
 	}
 	for _, v := range violations {
 		fmt.Println(v)
+	}
+	if len(retired) > 0 {
+		fmt.Printf("%s: %d ledger obligation(s) about loops that no longer exist were retired (lemmas only; see evidence coverage.retired_loop_lemmas)\n", id, len(retired))
 	}
 	fmt.Printf("%s: ledger=%d discharged=%d generated=%d new-undecided=%d violations=%d known=%d wall=%.1fs\n", id, len(ledger), discharged, len(all), len(undecidedNew), len(violations), len(known), time.Since(t0).Seconds())
 	if len(violations) > 0 {
@@ -721,4 +733,47 @@ func foreignLabel(name, id string) bool {
 		}
 	}
 	return false
+}
+
+
+var loopOblRe = regexp.MustCompile(`^(.*)#(?:F1\.loop(\d+)\.(init|preserve)\.|F1\.loop(\d+)\.decreases$|V\.reach\.loop(\d+)\.body$)`)
+
+// retiredLoopObligation: the ledger obligation `name` is the initialisation / preservation of a loop
+// invariant (or the reachability cover of the loop body) of a loop that the function no longer has --
+// it now has fewer loops than were recorded and this was one of the trailing ones, typically a search
+// loop replaced by slices.Contains / IndexFunc -- and the contract says nothing else about that loop
+// (no per-iteration postcondition). Invariants are lemmas for the function's postconditions and guards;
+// those are separate obligations that are still generated and must still discharge.
+func retiredLoopObligation(P *Program, name string) string {
+	if os.Getenv("GVC_NO_RENAME") != "" {
+		return ""
+	}
+	m := loopOblRe.FindStringSubmatch(name)
+	if m == nil {
+		return ""
+	}
+	fname := m[1]
+	ks := m[2] + m[4] + m[5]
+	k, err := strconv.Atoi(ks)
+	if err != nil {
+		return ""
+	}
+	fn := P.Funcs[fname]
+	if fn == nil {
+		fn = retargetFunc(P, fname)
+	}
+	c := P.Contracts[fname]
+	if fn == nil || c == nil {
+		return ""
+	}
+	rec, cur := recordedLoops(fname), countLoops(fn)
+	if rec <= 0 || cur >= rec || k < cur {
+		return ""
+	}
+	for _, cl := range c.Clauses {
+		if cl.Loop == ks && cl.Kind != "invariant" && cl.Kind != "decreases" {
+			return ""
+		}
+	}
+	return fmt.Sprintf("loop %d of %d recorded loops is gone (the function has %d now); its invariant was a lemma only", k, rec, cur)
 }
